@@ -3,6 +3,7 @@ CONSTANT Params <- RSParams
 CONSTANT MkCase <- RSCase
 CONSTANT MaxLen = 40
 CONSTANT MaxDecl = 56
+CONSTANT HeaderNames = {"bi", "tag", "mb", "htag", "dummy"}
 INVARIANT DesignAccepted
 INVARIANT DesignControlled
 INVARIANT Export
